@@ -18,39 +18,22 @@ Theorem C19_looks_like_chrome_edge_safari_tor_no_panic :
 Proof. exact chrome_edge_safari_tor_no_panic. Qed.
 Print Assumptions C19_looks_like_chrome_edge_safari_tor_no_panic.
 
-(* looksLikeFirefox: the statement "never panics" is false of the code as it is *)
-Theorem C19_looks_like_firefox_no_panic_refuted : exists inf : info, looks_like_firefox inf = Panic.
-Proof. exact looks_like_firefox_refuted. Qed.
-Print Assumptions C19_looks_like_firefox_no_panic_refuted.
+(* looksLikeFirefox (repaired: the optional extra curves 256, 257 are compared only after the
+   length of the curve list is checked) is total as well *)
+Theorem C19_looks_like_firefox_no_panic : forall inf : info, looks_like_firefox inf <> Panic.
+Proof. exact looks_like_firefox_no_panic. Qed.
+Print Assumptions C19_looks_like_firefox_no_panic.
 
-(* ... and it panics exactly on hellos with the Firefox extension order whose curve list is
-   29,23,24,25,256 (five curves): everywhere else it is total *)
-Theorem C19_looks_like_firefox_no_panic_partial :
-  forall inf : info,
-    looks_like_firefox inf = Panic <->
-    (assert_presence_and_ordering ff_exts (i_exts inf) true = true /\
-     i_curves inf = [29; 23; 24; 25; 256]).
-Proof. exact looks_like_firefox_panic_iff. Qed.
-Print Assumptions C19_looks_like_firefox_no_panic_partial.
+(* the former panic witness (Firefox extension order, curves 29,23,24,25,256) is now "not Firefox" *)
+Example C19_looks_like_firefox_five_curves : looks_like_firefox ff_witness = Ok false.
+Proof. exact ff_witness_false. Qed.
 
-(* tlsHandler.ServeHTTP's decision, for every User-Agent string, header flags and version oracle *)
-Theorem C19_mitm_check_no_panic_refuted :
-  exists inf ua, mitm_check inf ua false false false = Panic.
-Proof. exact mitm_check_refuted. Qed.
-Print Assumptions C19_mitm_check_no_panic_refuted.
-
-Theorem C19_mitm_check_no_panic_partial :
-  forall inf ua bluecoat fcckv2 torver,
-    ~ (assert_presence_and_ordering ff_exts (i_exts inf) true = true /\
-       i_curves inf = [29; 23; 24; 25; 256]) ->
-    mitm_check inf ua bluecoat fcckv2 torver <> Panic.
-Proof. exact mitm_check_no_panic_partial. Qed.
-Print Assumptions C19_mitm_check_no_panic_partial.
-
-Example C19_mitm_check_no_panic_partial_nonvacuous :
-  ~ (assert_presence_and_ordering ff_exts (i_exts info0) true = true /\
-     i_curves info0 = [29; 23; 24; 25; 256]).
-Proof. intros [H _]. vm_compute in H. discriminate. Qed.
+(* tlsHandler.ServeHTTP's decision, for every hello info, User-Agent string, header flags and
+   version oracle *)
+Theorem C19_mitm_check_no_panic :
+  forall inf ua bluecoat fcckv2 torver, mitm_check inf ua bluecoat fcckv2 torver <> Panic.
+Proof. exact mitm_check_no_panic. Qed.
+Print Assumptions C19_mitm_check_no_panic.
 
 (* getVersion on every User-Agent / software name *)
 Theorem C19_get_version_no_panic : forall ua name : bytes, get_version_str ua name <> Panic.
@@ -64,81 +47,87 @@ Theorem C19_client_hello_conn_no_panic :
 Proof. exact conn_no_panic. Qed.
 Print Assumptions C19_client_hello_conn_no_panic.
 
-(* "what is recorded does not depend on the segmentation" is false of the code as it is:
-   a record, a segmentation of it, and the info recorded differs from the parse of the record *)
-Theorem C19_hello_info_segmentation_independent_refuted :
-  exists hdr body segs,
-    length hdr = 5%nat /\ N.to_nat (u16 (nth 3 hdr 0) (nth 4 hdr 0)) = length body /\
-    concat segs = hdr ++ body /\
-    exists st inf, conn_run conn0 segs = Ok st /\ parse_raw_client_hello body = Ok inf /\
-                   c_recorded st <> Some inf.
-Proof. exact segmentation_refuted. Qed.
-Print Assumptions C19_hello_info_segmentation_independent_refuted.
+(* clientHelloConn.Read (repaired: the 5-byte record header is peeked and stays in the tee buffer
+   until the body it announces has arrived).  What is recorded is a function of the bytes
+   delivered, whatever the reads they arrived in: ANY two read sequences that deliver the same
+   bytes (arbitrary bytes, not only well-formed records; empty reads included) record the same *)
+Theorem C19_hello_info_segmentation_independent :
+  forall segs1 segs2 : list bytes,
+    concat segs1 = concat segs2 ->
+    exists st1 st2, conn_run conn0 segs1 = Ok st1 /\ conn_run conn0 segs2 = Ok st2 /\
+                    c_recorded st1 = c_recorded st2.
+Proof. exact segmentation_independent. Qed.
+Print Assumptions C19_hello_info_segmentation_independent.
 
-(* strongest true statement: for every record (5-byte header whose length field matches the
-   body, arbitrary trailing bytes) and EVERY segmentation in which no read ends after the header
-   is complete and before the body is, the recorded info is the parse of the body *)
-Theorem C19_hello_info_segmentation_independent_partial :
+Example C19_hello_info_segmentation_independent_nonvacuous :
+  concat [seg_hdr ++ firstn 5 seg_body; skipn 5 seg_body] = concat [seg_hdr ++ seg_body].
+Proof. reflexivity. Qed.
+
+(* ... namely [recorded_of] of the bytes: nothing before a complete record, then its parse *)
+Theorem C19_hello_info_is_function_of_bytes :
+  forall segs : list bytes,
+    exists st, conn_run conn0 segs = Ok st /\ c_recorded st = recorded_of (concat segs).
+Proof. exact conn_run_recorded. Qed.
+Print Assumptions C19_hello_info_is_function_of_bytes.
+
+(* for every record (5-byte header whose length field matches the body, arbitrary trailing bytes)
+   and EVERY segmentation of it, the recorded info is the parse of the body *)
+Theorem C19_hello_info_every_segmentation :
   forall (hdr body rest : bytes) (segs : list bytes),
     length hdr = 5%nat ->
     N.to_nat (u16 (nth 3 hdr 0) (nth 4 hdr 0)) = length body ->
     concat segs = hdr ++ body ++ rest ->
-    forallb (safe_cut (length body)) (cuts segs) = true ->
     exists st inf, conn_run conn0 segs = Ok st /\ parse_raw_client_hello body = Ok inf /\
                    c_recorded st = Some inf.
-Proof. exact segmentation_partial. Qed.
-Print Assumptions C19_hello_info_segmentation_independent_partial.
+Proof. exact segmentation_full. Qed.
+Print Assumptions C19_hello_info_every_segmentation.
 
-Example C19_hello_info_segmentation_independent_partial_nonvacuous :
-  let segs := [[22; 3]; [1; 0]; seg_body_tail] in
-  concat segs = seg_hdr ++ seg_body ++ [7; 7] /\
-  forallb (safe_cut (length seg_body)) (cuts segs) = true.
-Proof. vm_compute. split; reflexivity. Qed.
+(* the segmentation that refuted the statement for the unrepaired code (a read ending 5 bytes
+   into the body) is covered *)
+Example C19_hello_info_every_segmentation_nonvacuous :
+  let segs := [seg_hdr ++ firstn 5 seg_body; skipn 5 seg_body ++ [7; 7]] in
+  length seg_hdr = 5%nat /\
+  N.to_nat (u16 (nth 3 seg_hdr 0) (nth 4 seg_hdr 0)) = length seg_body /\
+  concat segs = seg_hdr ++ seg_body ++ [7; 7].
+Proof. vm_compute. repeat split; reflexivity. Qed.
 
-(* in particular the whole record in one read, and any two safe segmentations agree *)
-Theorem C19_hello_info_one_read :
-  forall hdr body rest : bytes,
+(* and as long as the record is incomplete nothing is recorded *)
+Theorem C19_hello_info_incomplete_record :
+  forall (hdr body : bytes) (segs : list bytes) (k : nat),
     length hdr = 5%nat ->
     N.to_nat (u16 (nth 3 hdr 0) (nth 4 hdr 0)) = length body ->
-    exists st inf, conn_run conn0 [hdr ++ body ++ rest] = Ok st /\
-                   parse_raw_client_hello body = Ok inf /\ c_recorded st = Some inf.
-Proof. exact one_read. Qed.
-Print Assumptions C19_hello_info_one_read.
+    (k < 5 + length body)%nat ->
+    concat segs = firstn k (hdr ++ body) ->
+    exists st, conn_run conn0 segs = Ok st /\ c_recorded st = None.
+Proof. exact segmentation_incomplete. Qed.
+Print Assumptions C19_hello_info_incomplete_record.
 
-Theorem C19_hello_info_safe_segmentations_agree :
-  forall (hdr body rest : bytes) (segs1 segs2 : list bytes),
-    length hdr = 5%nat ->
-    N.to_nat (u16 (nth 3 hdr 0) (nth 4 hdr 0)) = length body ->
-    concat segs1 = hdr ++ body ++ rest -> concat segs2 = hdr ++ body ++ rest ->
-    forallb (safe_cut (length body)) (cuts segs1) = true ->
-    forallb (safe_cut (length body)) (cuts segs2) = true ->
-    exists st1 st2, conn_run conn0 segs1 = Ok st1 /\ conn_run conn0 segs2 = Ok st2 /\
-                    c_recorded st1 = c_recorded st2.
-Proof. exact safe_segmentations_agree. Qed.
-Print Assumptions C19_hello_info_safe_segmentations_agree.
+Example C19_hello_info_incomplete_record_nonvacuous :
+  concat [seg_hdr; firstn 5 seg_body] = firstn 10 (seg_hdr ++ seg_body) /\ (10 < 5 + length seg_body)%nat.
+Proof. vm_compute. split; [reflexivity|]. repeat constructor. Qed.
 
 (* ---- Link headers coming from upstream (push middleware) ---- *)
-Theorem C19_parse_link_header_no_panic_refuted : exists h : bytes, parse_link_header h = Panic.
-Proof. exact parse_link_header_refuted. Qed.
-Print Assumptions C19_parse_link_header_no_panic_refuted.
+(* parseLinkHeader (repaired: a comma piece whose '>' precedes its first '<' is skipped like a
+   piece without brackets) is total on every header value *)
+Theorem C19_parse_link_header_no_panic : forall h : bytes, parse_link_header h <> Panic.
+Proof. exact parse_link_header_no_panic. Qed.
+Print Assumptions C19_parse_link_header_no_panic.
 
-(* it panics exactly when some comma-separated piece has a '>' before its first '<' *)
-Theorem C19_parse_link_header_no_panic_partial :
-  forall h : bytes, parse_link_header h = Panic <-> existsb gt_before_lt (split COMMA h) = true.
-Proof. exact parse_link_header_panic_iff. Qed.
-Print Assumptions C19_parse_link_header_no_panic_partial.
-
-Theorem C19_serve_preload_links_no_panic_partial :
+(* ... and so is the push middleware's loop over all Link values, for every pusher failure point *)
+Theorem C19_serve_preload_links_no_panic :
   forall (values : list bytes) (n : nat) (failat : option nat),
-    (forall v, In v values -> existsb gt_before_lt (split COMMA v) = false) ->
     serve_preload_links values n failat <> Panic.
 Proof. exact serve_preload_links_no_panic. Qed.
-Print Assumptions C19_serve_preload_links_no_panic_partial.
+Print Assumptions C19_serve_preload_links_no_panic.
 
-Example C19_serve_preload_links_no_panic_partial_nonvacuous :
-  forall v, In v [[60; 47; 97; 62; 59; 32; 110; 111; 112; 117; 115; 104]] ->
-            existsb gt_before_lt (split COMMA v) = false.
-Proof. intros v [<-|[]]. vm_compute. reflexivity. Qed.
+(* the former panic class yields no resource *)
+Theorem C19_parse_link_skips_gt_before_lt :
+  forall link : bytes, gt_before_lt link = true -> parse_link link = Ok None.
+Proof. exact parse_link_skips. Qed.
+Print Assumptions C19_parse_link_skips_gt_before_lt.
+
+Example C19_parse_link_skips_gt_before_lt_nonvacuous : gt_before_lt [GT; LT] = true.
+Proof. reflexivity. Qed.
 
 (* ---- FastCGI bytes coming from the backend ---- *)
 Theorem C19_record_read_no_panic : forall s : bytes, record_read s <> Panic.
@@ -163,50 +152,51 @@ Example C19_stream_decodes_records_nonvacuous :
   forallb frec_wf [mkRec 6 [104; 105] 6; mkRec 7 [33] 7; mkRec 6 [] 0] = true.
 Proof. reflexivity. Qed.
 
-Theorem C19_fcgi_status_no_panic_refuted : exists v : bytes, fcgi_status v = Panic.
-Proof. exact fcgi_status_refuted. Qed.
-Print Assumptions C19_fcgi_status_no_panic_refuted.
+(* the Status header (repaired: FCGIClient.Request returns an error for a code outside 100..999,
+   which the handler answers with 502): serving never reaches WriteHeader's panic, and a header
+   is only written with a code in 100..999 *)
+Theorem C19_fcgi_status_no_panic : forall v : bytes, fcgi_status v <> Panic.
+Proof. exact fcgi_status_no_panic. Qed.
+Print Assumptions C19_fcgi_status_no_panic.
 
-(* the handler panics exactly when the Status header's first token is an integer outside 100..999 *)
-Theorem C19_fcgi_status_no_panic_partial :
-  forall v : bytes,
-    fcgi_status v = Panic <->
-    v <> [] /\ exists c, atoi (match index_of [32] v with Some i => firstn i v | None => v end) = Some c /\
-                         (c < 100 \/ 999 < c)%Z.
-Proof. exact fcgi_status_panic_iff. Qed.
-Print Assumptions C19_fcgi_status_no_panic_partial.
+Theorem C19_fcgi_status_written_in_range :
+  forall (v : bytes) (c : Z), fcgi_status v = Ok (Some c) -> (100 <= c <= 999)%Z.
+Proof. exact fcgi_status_written. Qed.
+Print Assumptions C19_fcgi_status_written_in_range.
+
+Example C19_fcgi_status_written_in_range_nonvacuous :
+  fcgi_status [52; 48; 52; 32; 78] = Ok (Some 404%Z) /\ fcgi_status [57; 57] = Ok None.
+Proof. split; reflexivity. Qed.
 
 (* ---- request-derived FastCGI params, request path ---- *)
-Theorem C19_write_pair_no_panic_refuted :
-  exists klen vlen, (0 <= klen)%Z /\ (0 <= vlen)%Z /\ write_pair_len klen vlen = Panic.
-Proof. exact write_pair_refuted. Qed.
-Print Assumptions C19_write_pair_no_panic_refuted.
+(* writePairs (repaired: the cut length is clamped at 0 when the name leaves no room; the size
+   test is on the encoded pair) *)
+Theorem C19_write_pair_no_panic :
+  forall klen vlen : Z, (0 <= klen)%Z -> (0 <= vlen)%Z -> write_pair_len klen vlen <> Panic.
+Proof. exact write_pair_no_panic. Qed.
+Print Assumptions C19_write_pair_no_panic.
 
-Theorem C19_write_pair_no_panic_partial :
-  forall klen vlen : Z, (0 <= klen)%Z -> (0 <= vlen)%Z ->
-    (write_pair_len klen vlen = Panic <-> (65492 < klen)%Z).
-Proof. exact write_pair_panic_iff. Qed.
-Print Assumptions C19_write_pair_no_panic_partial.
-
+(* a pair that fits one record is sent whole; otherwise the value is cut so that
+   8+len(k)+len(v') = 65500, or to nothing when the name is longer than 65492 bytes *)
 Theorem C19_write_pair_truncation :
   forall klen vlen l : Z, (0 <= klen)%Z -> (0 <= vlen)%Z ->
     write_pair_len klen vlen = Ok l ->
-    (0 <= l <= vlen)%Z /\ (8 + klen + l <= 65500)%Z /\ ((8 + klen + vlen <= 65500)%Z -> l = vlen).
+    (0 <= l <= vlen)%Z /\
+    ((enc_pair_len klen vlen <= 65500)%Z -> l = vlen) /\
+    ((65500 < enc_pair_len klen vlen)%Z -> (8 + klen + l = 65500)%Z \/ ((65492 < klen)%Z /\ l = 0%Z)).
 Proof. exact write_pair_spec. Qed.
 Print Assumptions C19_write_pair_truncation.
 
-Example C19_write_pair_truncation_nonvacuous : write_pair_len 20 70000 = Ok 65472%Z.
-Proof. reflexivity. Qed.
+Example C19_write_pair_truncation_nonvacuous :
+  write_pair_len 20 70000 = Ok 65472%Z /\ write_pair_len 65493 5 = Ok 0%Z /\
+  write_pair_len 10 65485 = Ok 65485%Z.
+Proof. repeat split; reflexivity. Qed.
 
-Theorem C19_fcgi_path_gate_no_panic_refuted : exists p, fcgi_path_gate (fcgi_fpath p) true true = Panic.
-Proof. exact fcgi_path_gate_refuted. Qed.
-Print Assumptions C19_fcgi_path_gate_no_panic_refuted.
-
-Theorem C19_fcgi_path_gate_no_panic_partial :
-  forall fpath file_exists suffix_ok,
-    fcgi_path_gate fpath file_exists suffix_ok = Panic <-> (file_exists = true /\ fpath = []).
-Proof. exact fcgi_path_gate_panic_iff. Qed.
-Print Assumptions C19_fcgi_path_gate_no_panic_partial.
+(* the path gate (repaired: strings.HasSuffix(fpath, "/") instead of fpath[len(fpath)-1]) *)
+Theorem C19_fcgi_path_gate_no_panic :
+  forall fpath file_exists suffix_ok, fcgi_path_gate fpath file_exists suffix_ok <> Panic.
+Proof. exact fcgi_path_gate_no_panic. Qed.
+Print Assumptions C19_fcgi_path_gate_no_panic.
 
 (* ---- placeholders: Replace's scanning loops and getSubstitution's indexing are total for
    EVERY template and EVERY substitution values (request headers, cookies, query, host labels) ---- *)
